@@ -7,6 +7,8 @@
 //---------------------------------------------------------------------------//
 #include "StatusChecker.hh"
 
+#include <mutex>
+
 #include "corecel/data/AuxStateVec.hh"
 #include "corecel/data/Copier.hh"
 #include "corecel/sys/ActionRegistry.hh"
@@ -127,7 +129,17 @@ void StatusChecker::step(ActionId prev_action,
  */
 void StatusChecker::begin_run_impl(CoreParams const& params)
 {
+    // Every stream calls this concurrently from its stepper, possibly while
+    // earlier streams are already stepping: build the shared data once, under
+    // a lock
+    static std::mutex initialize_mutex;
+    std::lock_guard<std::mutex> scoped_lock{initialize_mutex};
     auto const& reg = *params.action_reg();
+    if (data_ && this->host_ref().orders.size() == reg.num_actions())
+    {
+        // Already built (by another stream) for the current set of actions
+        return;
+    }
 
     HostVal<StatusCheckParamsData> host_val;
     auto build_orders = CollectionBuilder{&host_val.orders};
